@@ -89,7 +89,7 @@ def plan(tier, seed):
             continue   # star x star (9 refinement pairs per solve) is left to the stateless slices
         for algo, menu in (("ext_spfs", [("a",), ("a", "b")]), ("superdtl", [("a",), ("a", "b"), ("b",)])):
             out.append({"slice": "e2e-session:3x3", "mode": "e2e", "algo": algo, "osh": osh, "ssh": ssh, "menu": menu,
-                        "costs": [core[0]], "session": True})
+                        "costs": [core[0], (0, 1, 2, 1, 1)], "session": True})
     if tier == "thorough":
         p4 = poly_shape_pairs(4, 3, min_obj=4, one_ternary_obj=True)
         out += L.split_plan("e2e-unordered:4x3(one 3-ary)", p4, umenu, 25, {"mode": "e2e", "algo": "superdtl", "costs": [core[0], core[1]]})
